@@ -20,6 +20,9 @@ open MdsVerif.Model MdsVerif.Model.Stree MdsVerif.Model.Cursor MdsVerif.Proofs.C
 
 variable {α : Type}
 
+/-- `NewFunc` with the regenerated balance factor (`Gen.Omap.balance`) written out -/
+theorem newFunc_def {K V : Type} : (Omap.newFunc : Omap.Map K V) = some (T.empty 250) := rfl
+
 /-- well-formed tree object: a search tree whose cached size is right -/
 def TWF (c : α → α → Ordering) (t : T α) : Prop :=
   Ordered c t.root ∧ t.size = t.root.toList.length
